@@ -16,7 +16,25 @@ import (
 type docBytes struct {
 	docs        []*mapV
 	malformedAt int
+	strayAt     int  // a stray '}' or ']' stands in front of this document (len(docs): at the end); -1: none
 	yaml        bool // written as YAML documents: not decodable as JSON
+}
+
+// jsonDocNext tells what a JSON decoder finds at document position pos:
+// "doc", "eof", "malformed" (an undecodable fragment that starts like an object) or
+// "stray" (a closing delimiter where a value should start).
+func (db *docBytes) jsonDocNext(pos int) string {
+	switch {
+	case pos == db.strayAt && pos == db.malformedAt:
+		return "malformed" // JSONDocs writes the fragment first
+	case pos == db.strayAt:
+		return "stray"
+	case pos == db.malformedAt:
+		return "malformed"
+	case pos >= len(db.docs):
+		return "eof"
+	}
+	return "doc"
 }
 
 func docStreamOf(rw value) *docBytes {
@@ -103,6 +121,45 @@ func (m *machine) decodeDocTag(doc *mapV, out value, tagKey string) {
 				cur[i] = copyVal(e.v)
 				break
 			}
+			if fp, isPtr := ft.Underlying().(*types.Pointer); isPtr {
+				// *T of a basic T (e.g. *float64): a fresh cell holding the member's value
+				eb, ok1 := fp.Elem().Underlying().(*types.Basic)
+				vb, ok2 := val.t.Underlying().(*types.Basic)
+				if !ok1 || !ok2 || eb.Info()&types.IsNumeric != vb.Info()&types.IsNumeric || eb.Info()&types.IsString != vb.Info()&types.IsString {
+					panic(engineErr(fmt.Sprintf("json document stream: member %q of type %v into field of type %v is not modelled", key, val.t, ft)))
+				}
+				cell := new(value)
+				*cell = copyVal(val.v)
+				cur[i] = cell
+				break
+			}
+			if fm, isMap := ft.Underlying().(*types.Map); isMap {
+				// map[string]string from a nested document of strings
+				src, okm := val.v.(*mapV)
+				kb, ok1 := fm.Key().Underlying().(*types.Basic)
+				eb, ok2 := fm.Elem().Underlying().(*types.Basic)
+				if !okm || !ok1 || !ok2 || kb.Info()&types.IsString == 0 || eb.Info()&types.IsString == 0 {
+					panic(engineErr(fmt.Sprintf("json document stream: member %q of type %v into field of type %v is not modelled", key, val.t, ft)))
+				}
+				dst, _ := cur[i].(*mapV)
+				if dst == nil {
+					dst = &mapV{keyT: fm.Key()}
+				} else {
+					dst = copyVal(dst).(*mapV)
+				}
+				for _, me := range src.entries {
+					if me.deleted {
+						continue
+					}
+					mv, _ := me.v.(iface)
+					if mv.t == nil {
+						continue
+					}
+					m.mapInsert(dst, me.k, copyVal(mv.v))
+				}
+				cur[i] = dst
+				break
+			}
 			fb, ok1 := ft.Underlying().(*types.Basic)
 			vb, ok2 := val.t.Underlying().(*types.Basic)
 			if !ok1 || !ok2 || fb.Info()&types.IsString != vb.Info()&types.IsString || fb.Info()&types.IsBoolean != vb.Info()&types.IsBoolean {
@@ -117,7 +174,7 @@ func (m *machine) decodeDocTag(doc *mapV, out value, tagKey string) {
 
 func init() {
 	zzAPI["YAMLDocs"] = func(fr *frame, a []value) value {
-		db := &docBytes{malformedAt: -1, yaml: true}
+		db := &docBytes{malformedAt: -1, strayAt: -1, yaml: true}
 		if l, ok := a[0].([]value); ok {
 			for _, d := range l {
 				mv, _ := d.(*mapV)
@@ -148,8 +205,21 @@ func init() {
 		c.pos++
 		return iface{}, true
 	}
+	zzAPI["JSONDocsWithStray"] = func(fr *frame, a []value) value {
+		db := &docBytes{malformedAt: concI(a[0], "malformedAt"), strayAt: concI(a[1], "strayAt")}
+		if l, ok := a[3].([]value); ok {
+			for _, d := range l {
+				mv, _ := d.(*mapV)
+				if mv == nil {
+					mv = &mapV{}
+				}
+				db.docs = append(db.docs, mv)
+			}
+		}
+		return db
+	}
 	zzAPI["JSONDocs"] = func(fr *frame, a []value) value {
-		db := &docBytes{malformedAt: concI(a[0], "malformedAt")}
+		db := &docBytes{malformedAt: concI(a[0], "malformedAt"), strayAt: -1}
 		if l, ok := a[1].([]value); ok {
 			for _, d := range l {
 				mv, _ := d.(*mapV)
